@@ -11,6 +11,14 @@ TOL_FLOAT = 1e-9
 
 def trains(case):
     import pyspike
+    from .env import HarnessError
+    t0, t1 = case["t0"], case["t1"]
+    if not t0 < t1:
+        raise HarnessError("generator produced an empty recording [%r, %r]" % (t0, t1))
+    for tr in case["trains"]:
+        if any(not (t0 <= s <= t1) for s in tr) or any(a >= b for a, b in zip(tr, tr[1:])):
+            raise HarnessError("generator produced an invalid spike train %r on [%r, %r]"
+                               % (tr, t0, t1))
     return [pyspike.SpikeTrain(np.array(tr, dtype=float), [case["t0"], case["t1"]])
             for tr in case["trains"]]
 
